@@ -141,8 +141,11 @@ class Report:
             "wall_s": round(time.time() - self.t0, 2),
             "violations": len(unknown),
         }
-        os.makedirs(os.path.join(VERIF, "evidence"), exist_ok=True)
-        with open(os.path.join(VERIF, "evidence", self.prop + ".json"), "w") as fh:
+        # evidence/ describes /repo itself; a run against another tree (selftests, trial fixes) writes elsewhere
+        other = os.environ.get("VERIF_REPO") and os.path.realpath(os.environ["VERIF_REPO"]) != "/repo"
+        edir = os.path.join(VERIF, "evidence-other-trees" if other else "evidence")
+        os.makedirs(edir, exist_ok=True)
+        with open(os.path.join(edir, self.prop + ".json"), "w") as fh:
             json.dump(ev, fh, indent=1, default=str)
         print("%s %s seed=%d: evaluations=%d distinct_nontrivial=%d violations=%d known=%d inconclusive=%d wall=%.1fs"
               % (self.prop, self.tier, self.seed, self.evaluations, nontrivial, len(unknown),
